@@ -26,6 +26,8 @@ func init() {
 		o.constInt("internal/core/adt", "ArcRequired", "arcRequired")
 		o.constInt("internal/core/adt", "ArcOptional", "arcOptional")
 		o.constInt("internal/core/adt", "ArcPending", "arcPending")
+		// the merge itself: translated from the guard + final assignment of updateArcType
+		o.arcMerge(map[string]bool{"ArcMember": true, "ArcRequired": true, "ArcOptional": true, "ArcPending": true})
 		// hand-transcribed: the merge (Kind.merge), one-level closing by close()
 		// (closeV), the required/concreteness walk (validate), Allows (Val.allows).
 		// The evidence-based typo check (typocheck.go) is deliberately NOT pinned: it is
@@ -34,5 +36,23 @@ func init() {
 			"Vertex.IsOpenStruct", "Vertex.IsClosedStruct", "isClosed", "validator.validate")
 		o.pinValue("internal/core/compile", "closeBuiltin", "pin_compile_closeBuiltin")
 		o.pins("cue", "Value.Allows")
+		// ---- evidence algorithm (session 3): Model/Typo.lean transcribes these by hand
+		o.constInt("internal/core/adt", "defEmbedding", "defEmbedding")
+		o.constInt("internal/core/adt", "defReference", "defReference")
+		o.constInt("internal/core/adt", "defStruct", "defStruct")
+		o.constInt("internal/core/adt", "cHasEllipsis", "cHasEllipsis")
+		o.constInt("internal/core/adt", "cHasTop", "cHasTop")
+		o.constInt("internal/core/adt", "cHasStruct", "cHasStruct")
+		o.pins("internal/core/adt",
+			"OpContext.getNextDefID", "nodeContext.addReplacement", "nodeContext.updateConjunctInfo",
+			"nodeContext.addResolver", "OpContext.subField", "nodeContext.newReq",
+			"nodeContext.injectEmbedNode", "nodeContext.splitStruct", "nodeContext.splitScope",
+			"nodeContext.checkTypos", "nodeContext.hasEvidenceForAll", "nodeContext.hasEvidenceForOne",
+			"nodeContext.containsDefIDRec", "getReqSets", "nodeContext.filterTop", "hasParentEllipsis",
+			"markIgnored", "filterSets", "reqSets.lookupSet",
+			// pattern constraints (Model/PatMatch.lean)
+			"matchPattern", "matchPatternValue", "BoundValue.validateStr",
+			// the callers Layer B follows
+			"nodeContext.scheduleStruct", "nodeContext.scheduleVertexConjuncts", "OpContext.notAllowedError")
 	}
 }
